@@ -263,6 +263,9 @@ impl Engine for SimpleEng {
     fn gen_op_props() -> Vec<&'static str> {
         vec!["C11"]
     }
+    fn validation_props() -> Vec<&'static str> {
+        vec!["C11"]
+    }
     fn is_ctx_path(_path: &str) -> bool {
         false
     }
